@@ -371,6 +371,12 @@ def withInterleavingOptions (cur : Option Settings) (opts : List Opt) : Except E
   | .error e => .error e
   | .ok s => .ok (some s)
 
+/-- `Config.applyDefaults` (called by `build{Client,Server}Config` after the options): nil settings
+become empty settings, a nil factory becomes WFQ with the weights set so far. -/
+def applyDefaults (cur : Option Settings) : Option Settings :=
+  let s := cur.getD {}
+  some (if s.factory = .none then setWFQ s else s)
+
 /-- the defaulting done by `createAssociation`: a nil settings pointer means WFQ without weights;
 a non-nil one is used as it is. -/
 def factoryOfConfig (cur : Option Settings) : Factory :=
